@@ -1,7 +1,7 @@
 (* C14 -- the generated configuration is well formed; the limit checks found in the
    source implement the limits; concrete non-vacuity witnesses. *)
 From Coq Require Import List ZArith Bool Lia Permutation.
-From LJT Require Import model.MemMgr model.MemCfg gen.GenMemConst proofs.MemMgrProofs proofs.MemMgrWrap proofs.MemMgrLimits.
+From LJT Require Import model.MemMgr model.TjInit model.MemCfg gen.GenMemConst proofs.MemMgrProofs proofs.MemMgrWrap proofs.MemMgrLimits proofs.TjInitProofs.
 Import ListNotations.
 Local Open Scope Z_scope.
 
@@ -86,3 +86,34 @@ Lemma ex_limits :
   pixels_rejected_src 65536 65536 1 = true /\
   scan_rejected_src 5 5 = false /\ scan_rejected_src 6 5 = true.
 Proof. vm_compute. repeat split; reflexivity. Qed.
+
+(* tj3Init with a handler that only frees the instance struct leaks: TJINIT_TRANSFORM, the
+   4th allocation (jinit_memory_mgr of the decompress half) fails: the whole compress half
+   (control block + PERMANENT pool) stays allocated.  Also: persistent failure from the 3rd
+   allocation on (the first PERMANENT pool cannot be obtained) leaks the control block
+   for every init type.  = finding F4 *)
+Lemma tj3_init_leak_witness :
+  (let '(ok, h) := tj3_init_destroy w64 ex_cfg false ITransform (empty_heap [false; false; false; true]) 1000 [64; 88] [64; 200; 48; 56] in
+   ok = false /\ length (live h) = 2%nat) /\
+  (let '(ok, h) := tj3_init_destroy w64 ex_cfg false ICompress (empty_heap (false :: false :: repeat true 20)) 1000 [64; 88] [64; 200; 48; 56] in
+   ok = false /\ length (live h) = 1%nat) /\
+  (let '(ok, h) := tj3_init_destroy w64 ex_cfg false IDecompress (empty_heap (false :: false :: repeat true 20)) 1000 [64; 88] [64; 200; 48; 56] in
+   ok = false /\ length (live h) = 1%nat) /\
+  (* and the same oracles are harmless with the destroying handler *)
+  (let '(ok, h) := tj3_init_destroy w64 ex_cfg true ITransform (empty_heap [false; false; false; true]) 1000 [64; 88] [64; 200; 48; 56] in
+   ok = false /\ live h = []) /\
+  (let '(ok, h) := tj3_init_destroy w64 ex_cfg true ITransform (empty_heap []) 1000 [64; 88] [64; 200; 48; 56] in
+   ok = true /\ live h = []).
+Proof. vm_compute. repeat split; reflexivity. Qed.
+
+Lemma tj3_init_handler_frees_only_refuted : exists c ty oracle sz csz dsz,
+  cfg_wf c /\ 0 <= sz <= c_max c /\ Forall (fun z => 0 <= z) csz /\ Forall (fun z => 0 <= z) dsz /\
+  let '(ok, h) := tj3_init_destroy w64 c false ty (empty_heap oracle) sz csz dsz in live h <> [].
+Proof.
+  exists ex_cfg, ITransform, [false; false; false; true], 1000, [64; 88], [64; 200; 48; 56].
+  split. { apply gen_cfg_wf; auto; lia. }
+  split. { vm_compute. split; congruence. }
+  split. { repeat constructor; lia. }
+  split. { repeat constructor; lia. }
+  vm_compute. congruence.
+Qed.
